@@ -79,6 +79,34 @@ fn compare(res: &mut Results, v: &Value, d: &Decoded) {
     if Some(d.end) != v["end"].as_u64() { res.mismatch("drift", "C02/reader_end", format!("spec {} code {}", v["end"], d.end), small); }
 }
 
+/// The same message somewhere inside a longer stream: `at` filler bytes in front, the reader positioned on the message.
+/// Pointers are relative to the message, so the result must not depend on where the message sits.
+pub fn decode_at(bytes: &[u8], at: usize) -> Decoded {
+    let mut buf = vec![0xEEu8; at];
+    buf.extend_from_slice(bytes);
+    let mut cur = Cursor::new(&buf[..]);
+    cur.set_position(at as u64);
+    let r = guarded(|| decode_digital_radar_data(&mut cur));
+    let end = cur.position().saturating_sub(at as u64);
+    match r {
+        Err(p) => Decoded { out: "panic", hdr: json!({}), prod: json!({}), end, detail: p },
+        Ok(Err(e)) => Decoded { out: "err", hdr: json!({}), prod: json!({}), end, detail: format!("{e:?}") },
+        Ok(Ok(m)) => Decoded { out: "ok", hdr: fields_json(&drd_header(&m.header)), prod: drd_products(&m), end, detail: String::new() },
+    }
+}
+/// Offsets at which an absolute stream position can coincide with a message-relative pointer: the gaps of the layout, and 28
+/// (where a type-31 body starts inside a framed stream).
+fn embed_offsets(gaps: &[usize]) -> Vec<usize> { let mut o: Vec<usize> = gaps.iter().copied().filter(|g| *g > 0).collect(); o.push(28); o.sort(); o.dedup(); o.truncate(3); o }
+fn position_independent(res: &mut Results, bytes: &[u8], gaps: &[usize], d: &Decoded, small: Value) {
+    for at in embed_offsets(gaps) {
+        let e = decode_at(bytes, at);
+        if e.out != d.out || e.hdr != d.hdr || e.prod != d.prod || (d.out == "ok" && e.end != d.end) {
+            res.mismatch("violation", "C02/position_dependent", format!("decoded differently when the message starts at stream offset {at}: {} vs {} {}", e.out, d.out, e.detail), small.clone());
+            return;
+        }
+    }
+}
+
 pub fn bytes_of(v: &Value) -> Vec<u8> { v.as_array().map(|a| a.iter().map(|x| x.as_u64().unwrap_or(0) as u8).collect()).unwrap_or_default() }
 
 pub fn run(args: &Args) {
@@ -94,6 +122,7 @@ pub fn run(args: &Args) {
                 res.case(fnv(&bytes), nblocks >= 1);
                 let d = decode(&bytes);
                 compare(&mut res, v, &d);
+                position_independent(&mut res, &bytes, &v["gaps"].as_array().map(|a| a.iter().map(|g| g.as_u64().unwrap_or(0) as usize).collect::<Vec<_>>()).unwrap_or_default(), &d, json!({"bytes": v["bytes"], "order": v["order"], "gaps": v["gaps"]}));
                 // cross-check of the driver's table-driven encoder: re-encode the abstract form, must be byte-identical
                 if let (Some(order), Some(gaps)) = (v["order"].as_array(), v["gaps"].as_array()) {
                     let hdr = fields_from_json(&v["hdr"]);
@@ -125,7 +154,7 @@ pub fn run(args: &Args) {
                 let blocks: Vec<Block> = prods.iter().map(|p| {
                     let g = if big { if blocks_big(&mut rng) { *rng.pick(&gate_choices[12..]) } else { *rng.pick(&gate_choices[..12]) } } else { *rng.pick(&gate_choices[..6]) };
                     let w = if rng.chance(1, 3) || matches!(*p, "PHI") { 16 } else { 8 };
-                    let gap = *rng.pick(&[0usize, 0, 1, 3, 7]);
+                    let gap = *rng.pick(&[0usize, 0, 1, 3, 7, 28]);
                     random_block(&l, &mut rng, p, g, w, gap)
                 }).collect();
                 let mut ptrs: Vec<usize> = (0..blocks.len()).collect();
@@ -134,6 +163,7 @@ pub fn run(args: &Args) {
                 let bytes = build_message(&l, &hdr, &blocks, &ptrs);
                 res.case(fnv(&bytes), !blocks.is_empty());
                 let d = decode(&bytes);
+                position_independent(&mut res, &bytes, &blocks.iter().map(|b| b.gap).collect::<Vec<_>>(), &d, json!({"bytes": bytes, "gaps": blocks.iter().map(|b| b.gap).collect::<Vec<_>>()}));
                 tr.ev(json!({"bytes": bytes, "out": d.out, "hdr": d.hdr, "prod": d.prod, "end": d.end}));
                 if k == 1 { res.sample(json!({"blocks_in_file_order": prods, "pointer_order": ptrs, "len": bytes.len(), "out": d.out})); }
             }
